@@ -127,14 +127,12 @@ func (c *CentroidGrouping) GroupClones(pairs []*ClonePair) []*CloneGroup {
 				if !unclassified[candidate] {
 					continue
 				}
-				// First try to use pre-computed similarity
-				var similarity float64
-				key := c.makePairKey(current, candidate)
-				if sim, exists := similarityIndex[key]; exists {
-					similarity = sim
-				} else {
-					// Fall back to calculating if not in index
-					similarity = c.calculateSimilarity(current, candidate)
+				// Only the reported pairs link fragments: a pair that was not detected,
+				// or that the request filtered out (clone type, similarity range), must
+				// not pull a fragment into a group, so nothing is recomputed here.
+				similarity, exists := similarityIndex[c.makePairKey(current, candidate)]
+				if !exists {
+					continue
 				}
 
 				if similarity >= c.threshold {
